@@ -61,10 +61,11 @@ func (r *runner) report(fs []finding) {
 	}
 }
 
-func (r *runner) sample(part string, obj interface{}) {
-	if r.samples[part] < 1 && vkit.ShardI() == 0 {
+// sample writes out one actual case per part and shard (the orchestrator keeps the first 12).
+func (r *runner) sample(part string, obj func() interface{}) {
+	if r.samples[part] < 1 {
 		r.samples[part]++
-		r.res.Sample(obj)
+		r.res.Sample(obj())
 	}
 }
 
